@@ -320,6 +320,14 @@ where
 
         self.read_block()?;
 
+        if self.position == cpos {
+            // No block was read at this position. Leave an empty block here rather than the
+            // block that was current before seeking.
+            self.buffer.block.set_position(cpos);
+            self.buffer.block.set_size(0);
+            self.buffer.block.data_mut().resize(0);
+        }
+
         self.buffer.block.data_mut().set_position(usize::from(upos));
 
         Ok(pos)
